@@ -31,6 +31,18 @@ func main() {
 	switch os.Args[1] {
 	case "check":
 		os.Exit(cmdCheck(os.Args[2:]))
+	case "own":
+		w, _ := setup()
+		for _, a := range os.Args[2:] {
+			for _, fi := range w.Funcs {
+				if fi.Key == a || fi.Name == a {
+					for _, o := range ownFunc(w, fi) {
+						fmt.Printf("%v %s  %s  %s\n", o.OK, o.Key, o.Pos, o.Why)
+					}
+				}
+			}
+		}
+		os.Exit(0)
 	case "funcs":
 		os.Exit(cmdFuncs(os.Args[2:]))
 	default:
@@ -67,7 +79,7 @@ func cmdFuncs(args []string) int {
 	var fis []*FuncInfo
 	if fs.NArg() == 0 {
 		for _, fi := range w.Funcs {
-			if fi.Contract != nil {
+			if fi.Contract != nil && !fi.Contract.Trusted && !inlinable(fi) {
 				fis = append(fis, fi)
 			}
 		}
